@@ -422,6 +422,10 @@ fn append_ret(core: &Core) -> Core {
             then: Box::from(append_ret(then)),
             el: Box::from(append_ret(el)),
         },
+        Core::If { cond, then } => Core::If {
+            cond: cond.clone(),
+            then: Box::from(append_ret(then)),
+        },
         Core::Match { expr, cases } => Core::Match {
             expr: expr.clone(),
             cases: cases.iter().map(append_ret).collect(),
@@ -448,7 +452,7 @@ fn append_ret(core: &Core) -> Core {
             class: class.clone(),
             body: Box::from(append_ret(body)),
         },
-        core if skip_return(core) => core.clone(),
+        core if skip_assign(core) => core.clone(),
         _ => Core::Return {
             expr: Box::from(core.clone()),
         },
@@ -459,8 +463,24 @@ fn skip_assign(core: &Core) -> bool {
     skip_return(core) || matches!(core, Core::VarDef { .. } | Core::Assign { .. })
 }
 
+/// Statements, which have no value that can be returned or assigned.
 fn skip_return(core: &Core) -> bool {
-    matches!(core, Core::Return { .. } | Core::Raise { .. })
+    matches!(
+        core,
+        Core::Return { .. }
+            | Core::Raise { .. }
+            | Core::While { .. }
+            | Core::For { .. }
+            | Core::With { .. }
+            | Core::WithAs { .. }
+            | Core::FunDef { .. }
+            | Core::FunDefOp { .. }
+            | Core::ClassDef { .. }
+            | Core::Import { .. }
+            | Core::Pass
+            | Core::Break
+            | Core::Continue
+    )
 }
 
 /// Before Python 3.12, an expression in a string cannot contain the quote of that string.
